@@ -1294,6 +1294,15 @@ fn derive_reprc_new(input: DeriveInput) -> TokenStream {
                 }
                 return implement_reprc_hardcoded_false(name.clone(), &input);
             }
+            if enum1.variants.iter().any(|v| v.discriminant.is_some()) {
+                // The wire format uses the variant index as discriminant. With explicit
+                // discriminant values the in-memory tag differs from the index, so the
+                // memory image is not the serialized form.
+                if opt_in_fast {
+                    abort_call_site!("The #[savefile_require_fast] attribute cannot be used for enums with explicit discriminant values");
+                }
+                return implement_reprc_hardcoded_false(name.clone(), &input);
+            }
 
             let mut conditions = vec![];
 
